@@ -10,23 +10,23 @@ Open Scope N_scope.
    entry point is never consulted (its call trace stays empty), whether parsing
    succeeds, fails or finds no message *)
 Theorem C11_safe_no_eval :
-  forall val read_lit read_vec read_uuid repl eval_fn pack txt,
-    outcome_trace val (from_human val read_lit read_vec read_uuid repl eval_fn pack true txt) = [].
+  forall val read_lit read_vec read_uuid repl eval_fn vnone has_ser pack txt,
+    outcome_trace val (from_human val read_lit read_vec read_uuid repl eval_fn vnone has_ser pack true txt) = [].
 Proof. exact safe_no_eval. Qed.
 Print Assumptions C11_safe_no_eval.
 
 (* a statement whose operator contains a dollar raises at once in safe mode *)
 Theorem C11_safe_rejects_stmt :
-  forall val read_lit read_vec read_uuid repl eval_fn pack s n op v,
+  forall val read_lit read_vec read_uuid repl eval_fn vnone has_ser s n op v,
     mem DOLLAR op = true ->
-    handle_var val read_lit read_vec read_uuid repl eval_fn pack true s n op v = inr (s_trace val s).
+    handle_var val read_lit read_vec read_uuid repl eval_fn vnone has_ser true s n op v = inr (s_trace val s).
 Proof. exact safe_rejects_stmt. Qed.
 Print Assumptions C11_safe_rejects_stmt.
 
 (* ... hence a text accepted in safe mode contains no dollar-operator statement *)
 Theorem C11_safe_accepts_no_dollar :
-  forall val read_lit read_vec read_uuid repl eval_fn pack txt m t,
-    from_human val read_lit read_vec read_uuid repl eval_fn pack true txt = OMsg val m t ->
+  forall val read_lit read_vec read_uuid repl eval_fn vnone has_ser pack txt m t,
+    from_human val read_lit read_vec read_uuid repl eval_fn vnone has_ser pack true txt = OMsg val m t ->
     match drop_while is_comment (prep txt) with
     | [] => True
     | _ :: rest => existsb has_dollar (stmts rest None) = false
@@ -37,65 +37,41 @@ Print Assumptions C11_safe_accepts_no_dollar.
 From HV Require Import Text.HumanTextLemmas Text.HumanTextProofs Text.HumanTextExamples.
 
 (* Round trip of the framing.  For every instance of the oracles (literal reader,
-   vector/uuid readers, replacement table, packers) and of the formatter's choices
-   (present = what _format_var shows: plain / packed with inline original / packed
-   with the original on a comment line; block suffix; header comments), for every
-   message with any number of blocks, block multiplicities, variables and
-   multi-line values: if every shown value satisfies var_ok (physical lines
-   non-blank, newline-free, not ending in a backslash; their stripped
-   concatenation reads back through the parser's sniffers / literal reader / the
-   packer given the variables parsed so far), parsing the text in either mode
-   returns exactly the message, with block lists that are present but empty
-   removed (shown m) - and no evaluation. *)
-Theorem C11_text_roundtrip_gen :
-  forall val read_lit read_vec read_uuid repl eval_fn pack present block_suffix hdr_comments safe m,
-    wf_msg val read_lit read_vec read_uuid repl pack present block_suffix hdr_comments m ->
-    from_human val read_lit read_vec read_uuid repl eval_fn pack safe
-      (to_human val present block_suffix hdr_comments m) = OMsg val (shown val m) [].
-Proof. exact text_roundtrip_gen. Qed.
-Print Assumptions C11_text_roundtrip_gen.
-
-(* ... hence, when no block list is empty, exactly the message it was produced
-   from: the same datagram body under any serializer *)
+   vector/uuid readers, replacement table, serializer table, packers) and of the
+   formatter's choices (present = what _format_var shows: plain / packed with
+   inline original / packed with the original on a comment line; block suffix;
+   header comments), for every message with any number of block lists - empty
+   ones included -, block multiplicities, variables and multi-line values: if
+   every shown value satisfies var_ok (physical lines non-blank, newline-free,
+   not ending in a backslash; their stripped concatenation reads back through
+   the parser's sniffers / literal reader; the packer, run after the whole text
+   has been read on the block with placeholders for the packed values not yet
+   restored, re-encodes the value), parsing the text in either mode returns
+   exactly the message it was produced from - hence the same datagram body under
+   any serializer - and evaluates nothing. *)
 Theorem C11_text_roundtrip :
-  forall val read_lit read_vec read_uuid repl eval_fn pack present block_suffix hdr_comments safe m,
-    wf_msg val read_lit read_vec read_uuid repl pack present block_suffix hdr_comments m ->
-    no_empty val m ->
-    from_human val read_lit read_vec read_uuid repl eval_fn pack safe
+  forall val read_lit read_vec read_uuid repl eval_fn vnone has_ser pack present block_suffix hdr_comments safe m,
+    wf_msg val read_lit read_vec read_uuid repl vnone has_ser pack present block_suffix hdr_comments m ->
+    from_human val read_lit read_vec read_uuid repl eval_fn vnone has_ser pack safe
       (to_human val present block_suffix hdr_comments m) = OMsg val m [].
 Proof. exact text_roundtrip. Qed.
 Print Assumptions C11_text_roundtrip.
 
-(* The full-strength statement (without no_empty) is false of the current code: a
-   Variable block list with zero blocks is not shown, so it is lost.  Witness:
-   IN M with an empty list of B blocks. *)
-Theorem C11_text_roundtrip_refuted :
-  exists m : msg xval,
-    wf_msg xval x_read_lit x_read_vec x_read_uuid x_repl x_pack x_present x_suffix x_comments m /\
-    x_from true (x_to m) <> OMsg xval m [].
-Proof.
-  exists ex_empty. split.
-  - repeat split; try discriminate; try reflexivity.
-    + constructor; [intros []|constructor].
-    + constructor; [|constructor]. repeat split; try discriminate; try reflexivity. constructor.
-    + constructor; [|constructor]. split; [reflexivity|]. exists [], [32;73;68;58;32;49]. split; reflexivity.
-  - vm_compute. discriminate.
-Qed.
-Print Assumptions C11_text_roundtrip_refuted.
+(* regression witnesses of the two repaired defects, now positive: a block list
+   that is present but empty survives the text form ... *)
+Example C11_ex_empty_list : x_from true (x_to ex_empty) = OMsg xval ex_empty [].
+Proof. vm_compute. reflexivity. Qed.
 
-(* The packer hypothesis of var_ok speaks about the variables parsed so far, not
-   the whole block; it fails for a packer that needs a later variable although the
-   packer re-encodes the value given the whole block (ObjectUpdate State/PCode):
-   the text is then rejected. *)
-Theorem C11_packed_order_refuted :
-  x_pack [77] [66] [115] [([115], [48;32;35;48]); ([112], [49])] [48;32;35;48] = Some [48;32;35;48] /\
-  x_from true (x_to ex_order) = OErr xval [].
+(* ... and a packer that needs a later variable of its block (x_pack of s needs
+   p, as ObjectUpdate State needs PCode) sees it, because packing is deferred *)
+Example C11_ex_packed_later_field :
+  x_pack [77] [66] [115] [([115], x_none)] [48;32;35;48] = None /\
+  x_from true (x_to ex_order) = OMsg xval ex_order [].
 Proof. split; vm_compute; reflexivity. Qed.
-Print Assumptions C11_packed_order_refuted.
 
-(* non-vacuity: a message with two B blocks and a C block, a two-line literal,
-   both packed forms, a uuid-like value, a replacement token, named and unnamed
-   flags, satisfies the hypotheses and round-trips *)
+(* non-vacuity: a message with two B blocks, a C block and an empty E list, a
+   two-line literal, both packed forms, a uuid-like value, a replacement token,
+   named and unnamed flags, satisfies the hypotheses and round-trips *)
 Example C11_ex_roundtrip : x_from true (x_to ex_msg) = OMsg xval ex_msg [].
 Proof. vm_compute. reflexivity. Qed.
 
@@ -106,29 +82,26 @@ Proof. split; vm_compute; reflexivity. Qed.
 
 (* ... and satisfies the hypotheses of C11_text_roundtrip *)
 Example C11_ex_hyps :
-  wf_msg xval x_read_lit x_read_vec x_read_uuid x_repl x_pack x_present x_suffix x_comments ex_msg
-  /\ no_empty xval ex_msg.
+  wf_msg xval x_read_lit x_read_vec x_read_uuid x_repl x_none x_has_ser x_pack x_present x_suffix x_comments ex_msg.
 Proof.
+  unfold wf_msg, ex_msg. cbn [m_name m_flags m_blocks].
+  split; [split; [discriminate | reflexivity]|].
+  split; [reflexivity|].
+  split; [repeat constructor; cbn; intuition discriminate|].
   split.
-  - unfold wf_msg, ex_msg. cbn [m_name m_flags m_blocks].
-    split; [split; [discriminate | reflexivity]|].
-    split; [reflexivity|].
-    split; [repeat constructor; cbn; intuition discriminate|].
-    split.
-    + repeat (apply Forall_cons || apply Forall_nil); unfold entry_ok; cbn [fst snd];
-        (split; [split; [discriminate | reflexivity]|]); (split; [split; reflexivity|]);
-        repeat (apply Forall_cons || apply Forall_nil); cbn [vars_ok];
-        repeat (match goal with
-                | |- _ /\ _ => split
-                | |- True => exact I
-                | |- ~ In _ _ => cbn; intuition discriminate
-                | |- var_ok _ _ _ _ _ _ _ _ _ _ _ _ _ => unfold var_ok; cbn [x_present str_eqb N.eqb Pos.eqb andb]
-                | |- wordy _ => split; [discriminate | reflexivity]
-                | |- lines_ok _ => split; [discriminate | repeat (apply Forall_cons || apply Forall_nil)]
-                | |- line_ok _ => split; [reflexivity | split; [vm_compute; discriminate | vm_compute; reflexivity]]
-                | |- exists pv, _ => eexists; split; [reflexivity | vm_compute; reflexivity]
-                | |- _ = _ => vm_compute; reflexivity
-                end).
-    + constructor; [|constructor]. split; [reflexivity|]. exists [], [32;73;68;58;32;49]. split; reflexivity.
-  - repeat constructor; discriminate.
+  - repeat (apply Forall_cons || apply Forall_nil); unfold entry_ok; cbn [fst snd];
+      (split; [split; [discriminate | reflexivity]|]); (split; [repeat split; reflexivity|]);
+      repeat (apply Forall_cons || apply Forall_nil); cbn [vars_ok];
+      repeat (match goal with
+              | |- _ /\ _ => split
+              | |- True => exact I
+              | |- ~ In _ _ => cbn; intuition discriminate
+              | |- var_ok _ _ _ _ _ _ _ _ _ _ _ _ _ _ _ _ => unfold var_ok; cbn [x_present str_eqb N.eqb Pos.eqb andb]
+              | |- wordy _ => split; [discriminate | reflexivity]
+              | |- lines_ok _ => split; [discriminate | repeat (apply Forall_cons || apply Forall_nil)]
+              | |- line_ok _ => split; [reflexivity | split; [vm_compute; discriminate | vm_compute; reflexivity]]
+              | |- exists pv, _ => eexists; split; [reflexivity | vm_compute; reflexivity]
+              | |- _ = _ => vm_compute; reflexivity
+              end).
+  - constructor; [|constructor]. split; [reflexivity|]. exists [], [32;73;68;58;32;49]. split; reflexivity.
 Qed.
